@@ -331,14 +331,15 @@ Record lcfg := mkCfg {
 Record span := mkSpan { s_meta : option meta; s_id : option N }.
 
 Definition MESSAGE : bytes := [109; 101; 115; 115; 97; 103; 101].
-Definition is_message (k : bytes) : bool := list_eqb k MESSAGE.
+(** `field.name() == "message"` in `LogValueSet`'s visitor (the literal is generated) *)
+Definition is_message (k : bytes) : bool := list_eqb k gen_lvs_message_name.
 Definition render (k : bytes) (v : fval) : option bytes :=
   match v with
   | FStr disp dbg => Some (if is_message k then disp else dbg)
   | FOther dbg => Some dbg
   | FEmpty => None
   end.
-(** `LogValueSet`'s Display: `{:?}` / `{}={:?}` / ` {}={:?}` *)
+(** `LogValueSet`'s Display: the three generated literals (`{:?}` / `{}={:?}` / ` {}={:?}` in the source as it is) *)
 Fixpoint fmt_values (first : bool) (vs : valueset) : bytes :=
   match vs with
   | [] => []
@@ -346,7 +347,8 @@ Fixpoint fmt_values (first : bool) (vs : valueset) : bytes :=
       match (match ov with Some v => render k v | None => None end) with
       | None => fmt_values first r
       | Some d =>
-          (if first then (if is_message k then d else k ++ [61] ++ d) else [32] ++ k ++ [61] ++ d)
+          (if first then (if is_message k then fill gen_lvs_message [d] else fill gen_lvs_first [k; d])
+           else fill gen_lvs_rest [k; d])
             ++ fmt_values false r
       end
   end.
@@ -362,13 +364,26 @@ Definition if_log_enabled (cfg : lcfg) (ex : bool) (lvl : lv) : bool :=
   log_le (level_to_log lvl) (c_static_max cfg)
   && negb ((if c_always cfg then gen_iflog_always_checks_exists else gen_iflog_checks_exists) && ex).
 
+(** `log::Record::builder()` as written in `MacroCallsite::log` / `Span::log`: which setter is fed by which accessor
+    of the callsite's metadata (generated). *)
+Definition meta_str (acc : option string) (m : meta) : option bytes :=
+  match acc with
+  | Some a => if String.eqb a "file" then m_file m else if String.eqb a "module_path" then m_module m else None
+  | None => None
+  end.
+Definition meta_line (acc : option string) (m : meta) : option N :=
+  match acc with Some a => if String.eqb a "line" then m_line m else None | None => None end.
+Definition build_lrec (tbl : list (string * string)) (m : meta) (level : lv) (target text : bytes) : lrec :=
+  mkL level target text (meta_str (assoc_str "file" tbl) m) (meta_line (assoc_str "line" tbl) m)
+      (meta_str (assoc_str "module_path" tbl) m).
+
 (** `__tracing_log!` + `MacroCallsite::log` *)
 Definition event_log (cfg : lcfg) (ex : bool) (m : meta) (vs : valueset) : list lrec :=
   if if_log_enabled cfg ex (m_level m) then
     let level := level_to_log (m_level m) in
     if log_le level (c_log_max cfg) then
       if c_logger cfg (m_target m) level
-      then [mkL level (m_target m) (fmt_values true vs) (m_file m) (m_line m) (m_module m)]
+      then [build_lrec gen_macro_log_builder m level (m_target m) (fmt_values true vs)]
       else []
     else []
   else [].
@@ -378,11 +393,10 @@ Definition span_log (cfg : lcfg) (s : span) (target : bytes) (level : lv) (messa
   match s_meta s with
   | None => []
   | Some m =>
-      if log_le (level_to_log (m_level m)) (c_log_max cfg) then
+      if log_le (if gen_span_log_max_on_span_level then level_to_log (m_level m) else level) (c_log_max cfg) then
         if c_logger cfg target level then
-          [mkL level target
-               (match s_id s with Some id => fill gen_span_id_fmt [message; dec id] | None => message end)
-               (m_file m) (m_line m) (m_module m)]
+          [build_lrec gen_span_log_builder m level target
+               (match s_id s with Some id => fill gen_span_id_fmt [message; dec id] | None => message end)]
         else []
       else []
   end.
@@ -433,7 +447,8 @@ Inductive op :=
 | OpEvent (m : meta) (vs : valueset)
 | OpNewSpan (m : meta) (vs : valueset) (sid : option N)
 | OpRecord (s : span) (vs : valueset)
-| OpEnter (s : span) | OpExit (s : span) | OpDrop (s : span).
+| OpEnter (s : span) | OpExit (s : span) | OpDrop (s : span)
+| OpFollows (s : span) (from : option N).               (* Span::follows_from: no log call in the source *)
 
 (** one step: the new value of `EXISTS` and the log records emitted *)
 Definition step (cfg : lcfg) (ex : bool) (o : op) : bool * list lrec :=
@@ -446,6 +461,7 @@ Definition step (cfg : lcfg) (ex : bool) (o : op) : bool * list lrec :=
   | OpEnter s => (ex, lifecycle_log gen_span_enter cfg ex s)
   | OpExit s => (ex, lifecycle_log gen_span_exit cfg ex s)
   | OpDrop s => (ex, lifecycle_log gen_span_drop cfg ex s)
+  | OpFollows _ _ => (ex, [])
   end.
 Fixpoint run (cfg : lcfg) (ex : bool) (ops : list op) : bool * list (list lrec) :=
   match ops with
@@ -455,6 +471,98 @@ Fixpoint run (cfg : lcfg) (ex : bool) (ops : list op) : bool * list (list lrec) 
       let '(exf, outs) := run cfg ex' rest in
       (exf, out :: outs)
   end.
+
+(** ** The flag `has_been_set()` reads, on any number of threads, at the granularity of single atomic actions.
+    Everything here interprets generated data: the expression `has_been_set()` evaluates and the action lists of
+    `State::set_default` (= `dispatch::set_default`), `Drop for DefaultGuard` and `set_global_default`.
+    Sequentially consistent memory (the orderings in the source are Release/Relaxed/SeqCst: a reader that is not
+    ordered after a store by some other synchronisation may see the flag late; the harness orders every
+    observation after the step before it). *)
+Record regs := mkRegs { r_exists : N; r_ginit : N; r_scount : N }.
+Definition rget (a : atom) (r : regs) : N :=
+  match a with AExists => r_exists r | AGlobalInit => r_ginit r | AScopedCount => r_scount r end.
+Definition rset (a : atom) (v : N) (r : regs) : regs :=
+  match a with
+  | AExists => mkRegs v (r_ginit r) (r_scount r)
+  | AGlobalInit => mkRegs (r_exists r) v (r_scount r)
+  | AScopedCount => mkRegs (r_exists r) (r_ginit r) v
+  end.
+Definition WORD : N := 18446744073709551616.   (* usize on the 64-bit targets the harness runs on *)
+Fixpoint heval (h : hexpr) (r : regs) : bool :=
+  match h with
+  | HLoad a => negb (rget a r =? 0)
+  | HNe a n => negb (rget a r =? n)
+  | HEq a n => rget a r =? n
+  | HOr x y => heval x r || heval y r
+  | HAnd x y => heval x r && heval y r
+  | HNot x => negb (heval x r)
+  end.
+Definition has_been_set (r : regs) : bool := heval gen_has_been_set r.
+(** one action: the new registers, and whether the function goes on (a failed `compare_exchange` returns) *)
+Definition act (a : action) (r : regs) : regs * bool :=
+  match a with
+  | ActStore x v => (rset x v r, true)
+  | ActFetchAdd x d => (rset x ((rget x r + d) mod WORD) r, true)
+  | ActFetchSub x d => (rset x ((rget x r + WORD - d mod WORD) mod WORD) r, true)
+  | ActCas x o n => if rget x r =? o then (rset x n r, true) else (r, false)
+  | ActLocal => (r, true)
+  end.
+Definition fn_body (f : dfn) : list action :=
+  match f with FSetDefault => gen_fn_set_default | FGuardDrop => gen_fn_guard_drop | FSetGlobal => gen_fn_set_global end.
+Definition is_install (f : dfn) : bool := match f with FGuardDrop => false | _ => true end.
+
+(** [m_thr t]: the call thread [t] is in and the actions it still has to perform ([None]: not in a call).
+    [m_installed] (ghost): some `set_default` / successful `set_global_default` has returned. *)
+Record mstate := mkM { m_regs : regs; m_thr : N -> option (dfn * list action); m_installed : bool }.
+Definition upd {A} (th : N -> A) (t : N) (v : A) : N -> A := fun t' => if t' =? t then v else th t'.
+Definition minit : mstate := mkM (mkRegs 0 0 0) (fun _ => None) false.
+
+Inductive mop :=
+| MCall (t : N) (f : dfn)      (* thread t enters f (ignored while it is in another call) *)
+| MStep (t : N)                (* thread t performs its next action *)
+| MLog (t : N) (o : op).       (* thread t runs an event / span step through the macros: `has_been_set()` is read now *)
+
+Definition mstep (cfg : lcfg) (s : mstate) (o : mop) : mstate * list lrec :=
+  match o with
+  | MCall t f =>
+      match m_thr s t with
+      | None => (mkM (m_regs s) (upd (m_thr s) t (Some (f, fn_body f))) (m_installed s), [])
+      | Some _ => (s, [])
+      end
+  | MStep t =>
+      match m_thr s t with
+      | None => (s, [])
+      | Some (f, []) => (mkM (m_regs s) (upd (m_thr s) t None) (m_installed s || is_install f), [])
+      | Some (f, a :: rest) =>
+          let '(r', go) := act a (m_regs s) in
+          if go then
+            match rest with
+            | [] => (mkM r' (upd (m_thr s) t None) (m_installed s || is_install f), [])
+            | _ => (mkM r' (upd (m_thr s) t (Some (f, rest))) (m_installed s), [])
+            end
+          else (mkM r' (upd (m_thr s) t None) (m_installed s), [])
+      end
+  | MLog t o => (s, snd (step cfg (has_been_set (m_regs s)) o))
+  end.
+Fixpoint mrun (cfg : lcfg) (s : mstate) (h : list mop) : mstate * list (list lrec) :=
+  match h with
+  | [] => (s, [])
+  | o :: rest =>
+      let '(s', out) := mstep cfg s o in
+      let '(sf, outs) := mrun cfg s' rest in
+      (sf, out :: outs)
+  end.
+(** a call run to completion without interference: enter + one step per action *)
+Definition call_block (t : N) (f : dfn) : list mop := MCall t f :: map (fun _ => MStep t) (fn_body f).
+
+(** * Other public entries of tracing-log *)
+(** `<Metadata as AsLog>::as_log`: (level, target) of the `log::Metadata` *)
+Definition as_log_meta (m : meta) : option (lv * bytes) :=
+  let '(conv, own) := gen_as_log_metadata in
+  if conv && own then option_map (fun l => (l, m_target m)) (as_log_level (m_level m)) else None.
+(** `log::max_level()` after `LogTracer::builder()[.with_max_level(f)].init()` *)
+Definition builder_log_max (w : option (option lv)) : option (option lv) :=
+  if gen_builder_init_sets_max then Some (match w with Some f => f | None => gen_builder_default_max end) else None.
 
 (** * Encodings for the correspondence driver *)
 (** a synthetic callsite is reported as the level of its own static metadata; any other callsite as [None] *)
@@ -477,3 +585,13 @@ Definition enc_obs (o : obs) :=
   end.
 Definition enc_bridge (o : option (list obs)) := option_map (map enc_obs) o.
 Definition enc_run (x : bool * list (list lrec)) := (fst x, map (map enc_lrec) (snd x)).
+Definition enc_regs (r : regs) := (r_exists r, r_ginit r, r_scount r, has_been_set r).
+(** the machine's outputs, and `has_been_set()` after every step *)
+Fixpoint mrun_flags (cfg : lcfg) (s : mstate) (h : list mop) : list bool :=
+  match h with [] => [] | o :: rest => let s' := fst (mstep cfg s o) in has_been_set (m_regs s') :: mrun_flags cfg s' rest end.
+Definition enc_mrun (cfg : lcfg) (h : list mop) :=
+  let x := mrun cfg minit h in
+  (enc_regs (m_regs (fst x)), m_installed (fst x), map (map enc_lrec) (snd x), mrun_flags cfg minit h).
+Definition enc_enabled (x : option (bool * list obs)) := option_map (fun p => (fst p, map enc_obs (snd p))) x.
+Definition enc_as_trace (x : option tmeta) := option_map enc_tmeta x.
+Definition enc_as_log (x : option (lv * bytes)) := option_map (fun p => (rank_lv (fst p), snd p)) x.
